@@ -175,6 +175,7 @@ pub fn c04(thorough: bool) -> Vec<Unit> {
         v.push(seq_unit(cfg("deadlines", "two subscriptions with 10 s and 15 s deadlines, deliveries handed out at different instants, probes 1 ms before and just after each deadline", setup.clone(), alphabet.clone(), n)));
     }
     v.push(c04_phase_sweep(thorough));
+    v.push(deadline_walk(thorough));
     v
 }
 
@@ -406,6 +407,75 @@ pub fn c05_input(thorough: bool) -> Unit {
     explore_unit(
         "input/modify",
         format!("ModifyAckDeadline with N in {:?} x every ordered list of <=3 distinct ids from {{outstanding a, outstanding b, stale, unknown, malformed 'x', malformed ''}} ({} lists) x (unary | StreamingPull control message); afterwards every deadline is probed 1 ms before and just after", ns_desc, nl),
+        Bounds::new(0),
+        ExecCfg { points_on: false, phase_choices: phases, ..Default::default() },
+        f,
+    )
+}
+
+/// C04 / C01: walk across the deadlines of two coexisting deliveries in 1 ms steps with a request to the
+/// subscription at every step: nothing is lost, nothing comes back early, everything is back by deadline + slack.
+pub fn deadline_walk(thorough: bool) -> Unit {
+    let gaps: Vec<u64> = if thorough { vec![0, 1, 2, 3, 5, 9, 10, 11, 50, 99, 100, 101] } else { vec![0, 1, 3, 9, 11, 50] };
+    let phases: Vec<u64> = if thorough { vec![0, 1_000, 37_000, 50_500, 99_000] } else { vec![0, 37_000, 99_000] };
+    let f: ScenFn = scen!([gaps] |cx| {
+        let gap = gaps[cx.choose("gap-ms", gaps.len())];
+        let third = cx.choose("third-delivery", 2) == 1;
+        let a = cx.api.clone();
+        let fail = |what: &str| ScenarioOut::viol(format!("setup/{}", what), what.to_string());
+        if tryv!(cx.settle("setup:create-topic", { let a = a.clone(); async move { a.create_topic(T0).await } }).await).is_err() { return fail("create-topic"); }
+        if tryv!(cx.settle("setup:create-sub", { let a = a.clone(); async move { a.create_sub(S0, T0, 10, None).await } }).await).is_err() { return fail("create-sub"); }
+        if tryv!(cx.settle("setup:publish", { let a = a.clone(); async move { a.publish(T0, vec![(b"a".to_vec(), vec![]), (b"b".to_vec(), vec![]), (b"c".to_vec(), vec![])]).await } }).await).is_err() { return fail("publish"); }
+        let n = if third { 3 } else { 2 };
+        let mut los = vec![];
+        for i in 0..n {
+            if i > 0 {
+                let was = cx.freeze(true);
+                let q = cx.advance_ms(gap).await;
+                cx.freeze(was);
+                tryv!(q);
+            }
+            let got = tryv!(cx.settle("client:pull", { let a = a.clone(); async move { a.pull(S0, 1, true).await } }).await);
+            if got.map(|v| v.len()) != Ok(1) { return fail("pull"); }
+            los.push(cx.now_ms() + 10_000);
+        }
+        let (first, last) = (los[0], *los.last().unwrap());
+        let case = format!("gap={}ms deliveries={}", gap, n);
+        let mut prev_backlog = 3 - n;
+        let base = 3 - n;
+        for t in first - 2..=last + SLACK_MS + 2 {
+            let was = cx.freeze(true);
+            let q = cx.advance_to_ms(t).await;
+            cx.freeze(was);
+            tryv!(q);
+            // the stats request is itself a request that reaches the subscription actor between two expiries
+            let Some(st) = tryv!(cx.stats(S0).await) else { return fail("stats") };
+            if st.backlog + st.outstanding != 3 {
+                return ScenarioOut::viol("deadline-walk/message-lost-or-duplicated", format!("{}: at t={} ms the subscription holds backlog={} outstanding={} (3 unacknowledged messages exist)", case, t, st.backlog, st.outstanding));
+            }
+            let must_hold = los.iter().filter(|lo| t < **lo).count();
+            let must_be_back = los.iter().filter(|lo| t >= **lo + SLACK_MS).count();
+            if st.outstanding < must_hold {
+                return ScenarioOut::viol("deadline-walk/redelivered-early", format!("{}: at t={} ms only {} deliveries are still leased, {} deadlines have not been reached", case, t, st.outstanding, must_hold));
+            }
+            if st.backlog < base + must_be_back {
+                return ScenarioOut::viol("deadline-walk/redelivered-late", format!("{}: at t={} ms backlog={} although {} deadlines passed more than {} ms ago", case, t, st.backlog, must_be_back, SLACK_MS));
+            }
+            if st.backlog < prev_backlog {
+                return ScenarioOut::viol("deadline-walk/backlog-shrank", format!("{}: at t={} ms backlog went from {} to {} without any pull", case, t, prev_backlog, st.backlog));
+            }
+            prev_backlog = st.backlog;
+        }
+        // and they are really deliverable again
+        let got = tryv!(cx.settle("client:pull", { let a = a.clone(); async move { a.pull(S0, 10, true).await } }).await);
+        if got.as_ref().map(|v| v.len()) != Ok(3) {
+            return ScenarioOut::viol("deadline-walk/not-deliverable", format!("{}: the final Pull returned {:?} messages", case, got.map(|v| v.len())));
+        }
+        ScenarioOut { sample: Some(case.clone()), ..ScenarioOut::ok(case) }
+    });
+    explore_unit(
+        "input/deadline-walk",
+        format!("two or three deliveries handed out {:?} ms apart, phases {:?} µs; the clock walks in 1 ms steps from 2 ms before the first deadline to 107 ms after the last, with a request to the subscription actor at every step: nothing lost or duplicated, nothing back before its deadline, everything back by deadline + {} ms", gaps, phases, SLACK_MS),
         Bounds::new(0),
         ExecCfg { points_on: false, phase_choices: phases, ..Default::default() },
         f,
